@@ -108,6 +108,7 @@ type fnTrans struct {
 	retCount int
 	usedSpecFuncs map[string]bool
 	curPos token.Pos
+	preGlobals []*Cell // globals discovered by a first translation pass (goroutine fragments)
 	constGlobals map[string]int64
 	outside  map[string]int
 	callSites map[ssa.Instruction]string
@@ -883,6 +884,30 @@ func (f *frame) orExact(x *ssa.BinOp, a, b, res Expr) Expr {
 func (f *frame) unsupported(in ssa.Instruction, what string) {
 	t := f.t
 	what = strings.TrimPrefix(what, "*ssa.")
+	if t.fc.Concurrent {
+		// a goroutine fragment verified under a rely condition: anything another goroutine may
+		// do happens here; values received are arbitrary
+		f.interfere()
+		if v, ok := in.(ssa.Value); ok {
+			if tup, ok := v.Type().(*types.Tuple); ok {
+				var out []sval
+				for i := 0; i < tup.Len(); i++ {
+					out = append(out, sval{e: t.havocTemp("recv", t.th.SortOf(tup.At(i).Type()), tup.At(i).Type()), typ: tup.At(i).Type()})
+				}
+				f.tuples[v] = out
+				f.vals[v] = sval{typ: v.Type()}
+				return
+			}
+			if _, isChan := v.Type().Underlying().(*types.Chan); isChan {
+				r := t.havocTemp("chan", t.th.Addr(), v.Type())
+				t.cur.Assume(Not(Eq(r, t.th.AddrLit(0))))
+				f.setVal(v, sval{e: r, typ: v.Type()})
+				return
+			}
+			f.setVal(v, sval{e: t.havocTemp("recv", t.th.SortOf(v.Type()), v.Type()), typ: v.Type()})
+		}
+		return
+	}
 	t.cur.Assert(False, "subset/unreachable-"+what, t.fc.Props)
 	t.cur.Assume(False)
 	t.outside[what]++
@@ -898,6 +923,70 @@ func (f *frame) unsupported(in ssa.Instruction, what string) {
 		}
 		f.setVal(v, sval{e: t.havocTemp("dead", t.th.SortOf(v.Type()), nil), typ: v.Type()})
 	}
+}
+
+// interfere: an interference point of a goroutine fragment. Every heap / memory / global cell
+// is havocked (another goroutine may have written it), except what the contract declares
+// stable; captured variables shared with other closures are havocked too.
+func (f *frame) interfere() {
+	t := f.t
+	top := t.top
+	env := &specEnv{f: top, names: map[string]sval{}, fn: top.fn}
+	type keep struct {
+		heap *Cell
+		obj  Expr
+		val  Expr
+	}
+	var keeps []keep
+	stableCells := map[string]bool{}
+	for _, sname := range t.fc.Stable {
+		se, err := ParseSpec(sname)
+		if err != nil {
+			fail("%v", err)
+		}
+		if id, ok := se.(*SIdent); ok {
+			// a captured variable that only this goroutine writes
+			stableCells[id.Name] = true
+			continue
+		}
+		for _, lv := range top.specLvals(se, env) {
+			if lv.kind == lvField {
+				obj := t.newTemp("stobj", lv.idx)
+				keeps = append(keeps, keep{lv.heap, obj, t.newTemp("stval", Select(lv.heap, obj))})
+			}
+		}
+	}
+	names := append([]string{}, t.gorder...)
+	for _, n := range t.preGlobals {
+		if _, ok := t.globals[n.Name]; !ok {
+			t.global(n.Name, n.S)
+			names = append(names, n.Name)
+		}
+	}
+	sort.Strings(names)
+	for _, n := range names {
+		if n == "allocTop" || n == "objTop" {
+			continue
+		}
+		if _, isConst := t.constGlobals[n]; isConst {
+			continue
+		}
+		if n == "H_$rdData" || n == "H_$rdLen" || n == "H_$rdErr" {
+			continue // immutable ghost
+		}
+		t.cur.Havoc(t.globals[n])
+	}
+	for _, k := range keeps {
+		t.cur.Assign(k.heap, Store(k.heap, k.obj, k.val))
+	}
+	// captured variables
+	for fv, sv := range top.freeVars {
+		if sv.lv != nil && sv.lv.kind == lvCell && !stableCells[fv.Name()] {
+			t.cur.Havoc(sv.lv.cell)
+			t.assumeInv(sv.lv.cell, sv.lv.typ)
+		}
+	}
+	t.assumptions["rely condition (goroutine fragment): no other goroutine writes "+strings.Join(t.fc.Stable, ", ")] = true
 }
 
 func (f *frame) mulPattern(x *ssa.BinOp, a, b, res Expr) Expr {
